@@ -728,3 +728,342 @@ Section Logic.
     - eapply vbind; [apply observe_ok|]. intros v ->. eapply vbind; [apply IH|]. intros vs ->. now apply vret_val.
   Qed.
 End Logic.
+
+Arguments consistent {T} K inp mode p.
+Arguments evolves {T} K inp mode p p'.
+Arguments law_dlf {T} K inp.
+Arguments law_momm {T} K.
+Arguments Inv {T} K inp mode st.
+Arguments dvW {T} K inp.
+Arguments cmdW {T} K inp w.
+
+(* ================================================================================================ *)
+(* Part D: inversions, histories, the factory                                                        *)
+Section Top.
+  Variable T : Type.
+  Variable K : kernels T.
+  Variable inp : input T.
+
+  (* user-facing hypothesis: every filled slot holds the value the corresponding attribute of a fresh inversion of
+     the same class has (data_vector_mapper -> _data_vector_mapper, curvature_matrix_mapper_diag ->
+     _curvature_matrix_mapper_diag, the dictionaries in cls_list order) *)
+  Definition fresh_store (mode : option (wtilde T)) (p : pstore T) : Prop :=
+    (forall m, s_omm p = Some m -> m = p_omm K inp) /\
+    (forall m, s_curv p = Some m -> m = p_curv K inp mode) /\
+    (forall m, s_reg p = Some m -> m = p_reg K inp) /\
+    (forall x, s_ldr p = Some x -> has_reg inp = true -> p_ldr K inp = Ok x) /\
+    (forall l, s_lf p = Some l -> l = lf_fresh K inp) /\
+    (forall l, s_dlf p = Some l -> l = dlf_of K inp (lf_fresh K inp)) /\
+    (forall l, s_momm p = Some l -> l = momm_fresh K inp) /\
+    (forall v, s_dvm p = Some v -> v = p_dvm K inp mode) /\
+    (forall m w, s_cmd p = Some m -> mode = Some w -> m = p_cmd K inp w).
+  (* kernel identities needed only when the corresponding slot is filled:
+     - the two dictionaries whose mere presence switches the off-diagonal kernel (C04 identities);
+     - data_vector_mapper is returned as THE data vector when there is no function object: the block-assembled
+       vector must be the directly computed one (a shape / linearity law of the kernels, C04) *)
+  Definition laws_for (mode : option (wtilde T)) (p : pstore T) : Prop :=
+    (s_dlf p <> None -> law_dlf K inp) /\
+    (s_momm p <> None -> law_momm K) /\
+    (s_dvm p <> None -> has_func inp = false -> p_dvm K inp mode = p_dv K inp mode).
+
+  Lemma fresh_consistent mode p : fresh_store mode p -> laws_for mode p -> consistent K inp mode p.
+  Proof.
+    intros (c1&c2&c3&c4&c5&c6&c7&c8&c9) (l1&l2&l3).
+    refine (conj c1 (conj c2 (conj c3 (conj c4 (conj c5 (conj _ (conj _ (conj _ _)))))))).
+    - intros l H. split; [now apply c6|]. apply l1. congruence.
+    - intros l H. split; [now apply c7|]. apply l2. congruence.
+    - intros v H. rewrite (c8 _ H). split.
+      + intros _ Hf. apply l3; [congruence|assumption].
+      + intros w Em. unfold dvW. destruct (has_func inp) eqn:Ef.
+        * unfold p_dv. now rewrite Em, Ef.
+        * simpl. apply l3; [congruence|reflexivity].
+    - intros m w H Em. rewrite (c9 _ _ H Em). symmetry. apply p_pre_eq.
+  Qed.
+  Lemma empty_consistent mode : consistent K inp mode empty_store.
+  Proof. unfold consistent. simpl. repeat split; intros; discriminate. Qed.
+
+  (* one inversion object, any sequence of attribute reads *)
+  Lemma observe_all_run mode p qs :
+    consistent K inp mode p ->
+    let r := observe_all K code inp mode qs {| cache := empty_cache T; store := p |} in
+    fst r = map (pure K inp mode) qs /\ consistent K inp mode (store (snd r)) /\ evolves K inp mode p (store (snd r)).
+  Proof.
+    intros Hc.
+    assert (HI : Inv K inp mode {| cache := empty_cache T; store := p |}).
+    { split; [assumption|]. intros q c H. discriminate. }
+    destruct (observe_all_ok T K inp mode qs _ HI I) as ((a & _) & b & c). auto.
+  Qed.
+
+  (* the factory looks only at slots that never change *)
+  Lemma make_inversion_evolves mode p p' : evolves K inp mode p p' -> make_inversion K inp p' = make_inversion K inp p.
+  Proof.
+    intros (a1&a2&_). unfold make_inversion, choose_wt. now rewrite a1, a2.
+  Qed.
+
+  Lemma run_inversion_ok mode p qs :
+    make_inversion K inp p = Ok mode -> consistent K inp mode p ->
+    fst (run_inversion K inp code p qs) = Ok (map (pure K inp mode) qs) /\
+    consistent K inp mode (snd (run_inversion K inp code p qs)) /\
+    evolves K inp mode p (snd (run_inversion K inp code p qs)).
+  Proof.
+    intros Hm Hc. unfold run_inversion. rewrite Hm.
+    pose proof (observe_all_run mode p qs Hc) as (a & b & c).
+    destruct (observe_all K code inp mode qs {| cache := empty_cache T; store := p |}) as [vs st]. simpl in *.
+    now rewrite a.
+  Qed.
+  Lemma run_inversion_raise e p qs :
+    make_inversion K inp p = Raise e -> run_inversion K inp code p qs = (Raise e, p).
+  Proof. intro H. unfold run_inversion. now rewrite H. Qed.
+
+  (* any number of successive inversions sharing the Preloads object *)
+  Lemma run_history_ok mode h : forall p,
+    make_inversion K inp p = Ok mode -> consistent K inp mode p ->
+    fst (run_history K inp code p h) = map (fun qs => Ok (map (pure K inp mode) qs)) h /\
+    consistent K inp mode (snd (run_history K inp code p h)) /\
+    evolves K inp mode p (snd (run_history K inp code p h)).
+  Proof.
+    induction h as [|qs h IH]; intros p Hm Hc; simpl.
+    - split; [reflexivity|]. split; [assumption|apply evolves_refl].
+    - pose proof (run_inversion_ok mode p qs Hm Hc) as (a & b & c).
+      destruct (run_inversion K inp code p qs) as [r p1]. simpl in *.
+      assert (Hm1 : make_inversion K inp p1 = Ok mode) by (rewrite (make_inversion_evolves mode p p1 c); exact Hm).
+      pose proof (IH p1 Hm1 b) as (a2 & b2 & c2).
+      destruct (run_history K inp code p1 h) as [rs p2]. simpl in *.
+      split; [now rewrite a, a2|]. split; [assumption|]. eapply evolves_trans; eassumption.
+  Qed.
+  Lemma run_history_raise e h : forall p,
+    make_inversion K inp p = Raise e ->
+    run_history K inp code p h = (map (fun _ => Raise e) h, p).
+  Proof.
+    induction h as [|qs h IH]; intros p Hm; simpl; [reflexivity|].
+    rewrite (run_inversion_raise e p qs Hm). now rewrite (IH p Hm).
+  Qed.
+
+  (* when do the factory's two inputs from the Preloads object leave its decision unchanged *)
+  Definition factory_slots_neutral (p : pstore T) : Prop :=
+    (forall b, s_use_wt p = Some b -> all_func inp = false -> b = in_use_wt inp) /\
+    (forall w, s_wt p = Some w -> w = ds_wt (in_ds inp)).
+  Lemma make_inversion_neutral p : factory_slots_neutral p -> make_inversion K inp p = make_inversion K inp empty_store.
+  Proof.
+    intros [H1 H2]. unfold make_inversion, choose_wt. simpl.
+    assert (Hu : (if all_func inp then false else match s_use_wt p with Some b => b | None => in_use_wt inp end)
+                 = (if all_func inp then false else in_use_wt inp)).
+    { destruct (all_func inp) eqn:Ea; [reflexivity|]. destruct (s_use_wt p) as [b|] eqn:Eb; [|reflexivity]. now apply H1. }
+    rewrite Hu. destruct (s_wt p) as [w|] eqn:Ew; [|reflexivity]. now rewrite (H2 _ eq_refl).
+  Qed.
+
+  (* ---- the statements exported to Props/C15.v ---- *)
+  Theorem preload_transparent p qs :
+    factory_slots_neutral p ->
+    (forall mode, make_inversion K inp p = Ok mode -> fresh_store mode p /\ laws_for mode p) ->
+    fst (run_inversion K inp code p qs) = fst (run_inversion K inp code empty_store qs).
+  Proof.
+    intros Hn Hf. pose proof (make_inversion_neutral p Hn) as Hm.
+    destruct (make_inversion K inp p) as [mode|e] eqn:E.
+    - destruct (Hf mode eq_refl) as [F L].
+      rewrite (proj1 (run_inversion_ok mode p qs E (fresh_consistent mode p F L))).
+      now rewrite (proj1 (run_inversion_ok mode empty_store qs (eq_sym Hm) (empty_consistent mode))).
+    - rewrite (run_inversion_raise e p qs E). now rewrite (run_inversion_raise e empty_store qs (eq_sym Hm)).
+  Qed.
+
+  Definition frozen_eq (p p' : pstore T) : Prop :=
+    s_use_wt p' = s_use_wt p /\ s_wt p' = s_wt p /\ s_omm p' = s_omm p /\ s_curv p' = s_curv p /\
+    s_reg p' = s_reg p /\ s_lf p' = s_lf p /\ s_dlf p' = s_dlf p /\ s_momm p' = s_momm p /\ s_ldr p' = s_ldr p.
+  Lemma evolves_frozen mode p p' : evolves K inp mode p p' -> frozen_eq p p'.
+  Proof. unfold evolves, frozen_eq. tauto. Qed.
+
+  Theorem reuse_any_history p h :
+    factory_slots_neutral p ->
+    (forall mode, make_inversion K inp p = Ok mode -> fresh_store mode p /\ laws_for mode p) ->
+    fst (run_history K inp code p h) = map (fun qs => fst (run_inversion K inp code empty_store qs)) h /\
+    frozen_eq p (snd (run_history K inp code p h)).
+  Proof.
+    intros Hn Hf. pose proof (make_inversion_neutral p Hn) as Hm.
+    destruct (make_inversion K inp p) as [mode|e] eqn:E.
+    - destruct (Hf mode eq_refl) as [F L].
+      pose proof (run_history_ok mode h p E (fresh_consistent mode p F L)) as (a & b & c).
+      split; [|apply (evolves_frozen mode), c]. rewrite a. apply map_ext. intro qs.
+      now rewrite (proj1 (run_inversion_ok mode empty_store qs (eq_sym Hm) (empty_consistent mode))).
+    - rewrite (run_history_raise e h p E). simpl. split; [|unfold frozen_eq; tauto].
+      apply map_ext. intro qs. now rewrite (run_inversion_raise e empty_store qs (eq_sym Hm)).
+  Qed.
+
+  Theorem curvature_preload_unchanged p h :
+    factory_slots_neutral p ->
+    (forall mode, make_inversion K inp p = Ok mode -> fresh_store mode p /\ laws_for mode p) ->
+    s_curv (snd (run_history K inp code p h)) = s_curv p.
+  Proof. intros Hn Hf. destruct (reuse_any_history p h Hn Hf) as [_ (_&_&_&H&_)]. exact H. Qed.
+
+  (* the data_vector_mapper / curvature_matrix_mapper_diag cells may be completed in place, but only to arrays
+     that are again valid preloads: the store stays consistent for ever *)
+  Theorem store_stays_consistent p h mode :
+    make_inversion K inp p = Ok mode -> fresh_store mode p -> laws_for mode p ->
+    consistent K inp mode (snd (run_history K inp code p h)).
+  Proof. intros E F L. apply (run_history_ok mode h p E (fresh_consistent mode p F L)). Qed.
+
+  Theorem every_read_is_specified mode h p :
+    make_inversion K inp p = Ok mode -> fresh_store mode p -> laws_for mode p ->
+    fst (run_history K inp code p h) = map (fun qs => Ok (map (pure K inp mode) qs)) h.
+  Proof. intros E F L. exact (proj1 (run_history_ok mode h p E (fresh_consistent mode p F L))). Qed.
+
+  (* check_noise_map *)
+  Theorem noise_check_raises p w :
+    choose_wt inp p = true -> s_wt p = Some w ->
+    make_inversion K inp p = if teqb K (hd (t0 K) (ds_n (in_ds inp))) (wt_nv w) then Ok (Some w) else Raise InversionException.
+  Proof. intros Hc Hw. unfold make_inversion, check_noise_map. now rewrite Hc, Hw. Qed.
+
+  (* the choice of formalism: values are those of C04's identities, nothing else *)
+  Theorem formalism_choice_value_free w :
+    p_dv K inp (Some w) = p_dv K inp None ->
+    p_curv K inp (Some w) = p_curv K inp None ->
+    (forall s, mapped_wt K inp (lf_fresh K inp) s = mapped_map K inp (omm_list_of K inp (lf_fresh K inp)) s) ->
+    forall q, pure K inp (Some w) q = pure K inp None q.
+  Proof.
+    intros Hd Hc Hmp.
+    assert (Hcrm : p_crm K inp (Some w) = p_crm K inp None) by (unfold p_crm; now rewrite Hc).
+    assert (Hcrr : p_crmred K inp (Some w) = p_crmred K inp None) by (unfold p_crmred; now rewrite Hcrm).
+    assert (Hrec : p_rec K inp (Some w) = p_rec K inp None) by (unfold p_rec; now rewrite Hcrm, Hd).
+    assert (Hrr : p_recred K inp (Some w) = p_recred K inp None) by (unfold p_recred; now rewrite Hrec).
+    intros []; cbn [pure]; try reflexivity; try congruence.
+    - unfold p_mapped. rewrite Hrec. destruct (p_rec K inp None); simpl; [now rewrite Hmp | reflexivity].
+    - unfold p_regterm. now rewrite Hrr.
+    - unfold p_ldc. now rewrite Hcrr.
+  Qed.
+End Top.
+
+Arguments fresh_store {T} K inp mode p.
+Arguments laws_for {T} K inp mode p.
+Arguments factory_slots_neutral {T} inp p.
+Arguments frozen_eq {T} p p'.
+
+(* ================================================================================================ *)
+(* Part E: a concrete instance (T = Z, toy kernels): non-vacuity of the hypotheses, and the two mutants *)
+From Coq Require Import ZArith.
+Section Toy.
+  Local Open Scope Z_scope.
+  Definition cols (m : mat Z) : nat := length (hd [] m).
+  Definition zk : kernels Z := {|
+    t0 := 0; tadd := Z.add; tnz := fun x => negb (Z.eqb x 0); teqb := Z.eqb;
+    conv_mm := fun m => m; conv_img := fun v => v;
+    k_dv_bmm := fun B _ _ => repeat 1 (cols B);
+    k_curv_mm := fun B _ => repeat (repeat 1 (cols B)) (cols B);
+    k_wtd := fun d _ => d;
+    k_dv_wt := fun _ _ p => repeat 2 p;
+    k_curv_wt := fun _ _ p => repeat (repeat 4 p) p;
+    k_off_wt := fun _ _ p0 _ p1 => repeat (repeat 3 p1) p0;
+    k_cw := fun L _ => L; k_wv := fun L _ => L;
+    k_dotT := fun A B => repeat (repeat 5 (cols B)) (cols A);
+    k_dlfm := fun cw => cw;
+    k_off_dlfm := fun dl M _ => repeat (repeat 5 (cols dl)) (cols M);
+    k_off_mf := fun M _ cw => repeat (repeat 5 (cols cw)) (cols M);
+    k_mapped_mm := fun B _ => map (fun _ => 0) B; k_mapped_um := fun M _ => map (fun _ => 0) M;
+    k_rowsum := fun _ L => map (fun _ => 0) L;
+    k_quad := fun _ _ => 0;
+    k_solve := fun _ b => Ok b; k_ldc := fun A => Ok (hd 0 (hd [] A)); k_ldr := fun _ => Ok 9 |}.
+  Lemma zk_law_dlf inp : law_dlf zk inp.
+  Proof. intros x l. reflexivity. Qed.
+  Lemma zk_law_momm : law_momm zk.
+  Proof. intros x cw. reflexivity. Qed.
+
+  Definition zmapper (p : nat) (mm : mat Z) (reg : option (mat Z)) : lobj Z :=
+    {| lo_mapper := true; lo_mm := mm; lo_ovr := None; lo_p := p; lo_reg := reg |}.
+  Definition zfunc (p : nat) (mm : mat Z) : lobj Z :=
+    {| lo_mapper := false; lo_mm := mm; lo_ovr := None; lo_p := p; lo_reg := None |}.
+  Definition zds : dataset Z := {| ds_d := [1; 2]; ds_n := [1; 1]; ds_wt := {| wt_w := [[1]]; wt_nv := 1 |} |}.
+  (* a 2-parameter regularized mapper followed by a 1-parameter function object, w-tilde formalism *)
+  Definition inpA : input Z :=
+    {| in_ds := zds; in_objs := [zmapper 2 [[1; 0]; [0; 1]] (Some [[1; 0]; [0; 1]]); zfunc 1 [[1]; [1]]];
+       in_use_wt := true; in_eps := 7 |}.
+  Definition modeA : option (wtilde Z) := Some (ds_wt zds).
+  (* every slot filled with the fresh value *)
+  Definition pA : pstore Z :=
+    {| s_use_wt := Some true; s_wt := Some (ds_wt zds);
+       s_omm := Some (p_omm zk inpA); s_curv := Some (p_curv zk inpA modeA); s_cmd := Some (p_cmd zk inpA (ds_wt zds));
+       s_reg := Some (p_reg zk inpA); s_dvm := Some (p_dvm zk inpA modeA);
+       s_lf := Some (lf_fresh zk inpA); s_dlf := Some (dlf_of zk inpA (lf_fresh zk inpA));
+       s_momm := Some (momm_fresh zk inpA); s_ldr := Some 9 |}.
+  Lemma pA_mode : make_inversion zk inpA pA = Ok modeA.
+  Proof. reflexivity. Qed.
+  Lemma pA_neutral : factory_slots_neutral inpA pA.
+  Proof. split; simpl; intros x H; injection H as <-; reflexivity. Qed.
+  Lemma pA_fresh : forall mode, make_inversion zk inpA pA = Ok mode -> fresh_store zk inpA mode pA /\ laws_for zk inpA mode pA.
+  Proof.
+    intros mode H. rewrite pA_mode in H. injection H as <-. split.
+    - unfold fresh_store. simpl. repeat split; intros; injection H as <-; reflexivity.
+    - split; [intros _; apply zk_law_dlf|]. split; [intros _; apply zk_law_momm|]. intros _ H. discriminate.
+  Qed.
+  (* the outputs of this instance are not trivial *)
+  Lemma pA_outputs :
+    fst (run_inversion zk inpA code pA [QDv; QCurv; QCrm; QRec; QLdc])
+    = Ok [PV [2; 2; 1]; PM [[4; 4; 5]; [4; 4; 5]; [5; 5; 12]]; PM [[5; 4; 5]; [4; 5; 5]; [5; 5; 12]];
+          PRV (Ok [2; 2; 1]); PRT (Ok 5)].
+  Proof. vm_compute. reflexivity. Qed.
+  (* the w-tilde class completes the preloaded data_vector_mapper in place: the cell does change *)
+  Lemma pA_completed_in_place :
+    s_dvm pA = Some [2; 2; 0] /\ s_dvm (snd (run_inversion zk inpA code pA [QDv])) = Some [2; 2; 1].
+  Proof. split; vm_compute; reflexivity. Qed.
+
+  (* mutant 1: no copy.copy of the preloaded curvature matrix.  One regularized mapper, mapping formalism. *)
+  Definition inpB : input Z :=
+    {| in_ds := zds; in_objs := [zmapper 1 [[1]; [1]] (Some [[1]])]; in_use_wt := false; in_eps := 7 |}.
+  Definition pB : pstore Z :=
+    {| s_use_wt := None; s_wt := None; s_omm := None; s_curv := Some (p_curv zk inpB None); s_cmd := None; s_reg := None;
+       s_dvm := None; s_lf := None; s_dlf := None; s_momm := None; s_ldr := None |}.
+  Definition no_copy : variant := {| v_copy := false; v_guard := true |}.
+  Lemma pB_fresh : fresh_store zk inpB None pB /\ laws_for zk inpB None pB /\ factory_slots_neutral inpB pB
+                   /\ make_inversion zk inpB pB = Ok None.
+  Proof.
+    split; [|split; [|split]].
+    - unfold fresh_store. simpl. repeat split; intros; try discriminate. injection H as <-. reflexivity.
+    - unfold laws_for. simpl. repeat split; intros H; exfalso; now apply H.
+    - split; simpl; intros; discriminate.
+    - reflexivity.
+  Qed.
+  Lemma no_copy_refuted :
+    fst (run_history zk inpB no_copy pB [[QCrm]; [QCrm]]) = [Ok [PM [[2]]]; Ok [PM [[3]]]]
+    /\ s_curv pB = Some [[1]] /\ s_curv (snd (run_history zk inpB no_copy pB [[QCrm]; [QCrm]])) = Some [[3]]
+    /\ fst (run_history zk inpB code pB [[QCrm]; [QCrm]]) = [Ok [PM [[2]]]; Ok [PM [[2]]]].
+  Proof. repeat split; vm_compute; reflexivity. Qed.
+
+  (* mutant 2: InversionImagingMapping.data_vector before the repair (no guard on function objects) *)
+  Definition inpC : input Z :=
+    {| in_ds := zds; in_objs := [zmapper 1 [[1]; [1]] (Some [[1]]); zfunc 1 [[1]; [1]]]; in_use_wt := false; in_eps := 7 |}.
+  Definition pC : pstore Z :=
+    {| s_use_wt := None; s_wt := None; s_omm := None; s_curv := None; s_cmd := None; s_reg := None;
+       s_dvm := Some (p_dvm zk inpC None); s_lf := None; s_dlf := None; s_momm := None; s_ldr := None |}.
+  Definition unguarded : variant := {| v_copy := true; v_guard := false |}.
+  Lemma pC_fresh : fresh_store zk inpC None pC /\ laws_for zk inpC None pC /\ factory_slots_neutral inpC pC.
+  Proof.
+    split; [|split].
+    - unfold fresh_store. simpl. repeat split; intros; try discriminate. injection H as <-. reflexivity.
+    - unfold laws_for. simpl. split; [intros H; exfalso; now apply H|]. split; [intros H; exfalso; now apply H|].
+      intros _ H. discriminate.
+    - split; simpl; intros; discriminate.
+  Qed.
+  Lemma unguarded_refuted :
+    fst (run_inversion zk inpC unguarded pC [QDv]) = Ok [PV [1; 0]]
+    /\ fst (run_inversion zk inpC unguarded empty_store [QDv]) = Ok [PV [1; 1]]
+    /\ fst (run_inversion zk inpC code pC [QDv]) = Ok [PV [1; 1]].
+  Proof. repeat split; vm_compute; reflexivity. Qed.
+
+  (* the two formalisms of the toy instance agree on an input for which the hypotheses of
+     formalism_choice_value_free hold (one mapper, kernels chosen so that D and F coincide) *)
+  Definition zk2 : kernels Z :=
+    {| t0 := 0; tadd := Z.add; tnz := fun x => negb (Z.eqb x 0); teqb := Z.eqb;
+       conv_mm := fun m => m; conv_img := fun v => v;
+       k_dv_bmm := fun B _ _ => repeat 2 (cols B); k_curv_mm := fun B _ => repeat (repeat 4 (cols B)) (cols B);
+       k_wtd := fun d _ => d; k_dv_wt := fun _ _ p => repeat 2 p; k_curv_wt := fun _ _ p => repeat (repeat 4 p) p;
+       k_off_wt := fun _ _ p0 _ p1 => repeat (repeat 3 p1) p0; k_cw := fun L _ => L; k_wv := fun L _ => L;
+       k_dotT := fun A B => repeat (repeat 5 (cols B)) (cols A); k_dlfm := fun cw => cw;
+       k_off_dlfm := fun dl M _ => repeat (repeat 5 (cols dl)) (cols M);
+       k_off_mf := fun M _ cw => repeat (repeat 5 (cols cw)) (cols M);
+       k_mapped_mm := fun B _ => map (fun _ => 0) B; k_mapped_um := fun M _ => map (fun _ => 0) M;
+       k_rowsum := fun _ L => map (fun _ => 0) L; k_quad := fun _ _ => 0;
+       k_solve := fun _ b => Ok b; k_ldc := fun A => Ok (hd 0 (hd [] A)); k_ldr := fun _ => Ok 9 |}.
+  Definition inpD : input Z :=
+    {| in_ds := zds; in_objs := [zmapper 2 [[1; 0]; [0; 1]] (Some [[1; 0]; [0; 1]])]; in_use_wt := true; in_eps := 7 |}.
+  Lemma formalism_hyps_hold :
+    p_dv zk2 inpD (Some (ds_wt zds)) = p_dv zk2 inpD None /\ p_curv zk2 inpD (Some (ds_wt zds)) = p_curv zk2 inpD None
+    /\ (forall s, mapped_wt zk2 inpD (lf_fresh zk2 inpD) s = mapped_map zk2 inpD (omm_list_of zk2 inpD (lf_fresh zk2 inpD)) s).
+  Proof. repeat split. Qed.
+End Toy.
